@@ -68,14 +68,20 @@ CK_PREFIXES = [b"before ", b"= ", b"filter ", b'"a"^^type:', b'"a"@[', b'"', b"?
                b"between 1,"]
 
 
+class Hang(Exception):
+    pass
+
+
 def go_cksums(items):
     spec = ",".join("%s:%d" % (p.hex(), d) for p, d in items)
     p = subprocess.run([os.path.join(BIN, "h_lex"), "-cksum", spec], cwd=REPO, env=vcheck.goenv(), stdout=subprocess.PIPE,
                        stderr=subprocess.PIPE, timeout=3000, text=True)
+    if p.returncode == 3:
+        raise Hang(p.stderr.strip()[-300:])
     if p.returncode != 0:
         raise vcheck.Broken("h_lex -cksum failed", p.stdout[-1000:] + p.stderr[-1000:])
     rows = [json.loads(l) for l in p.stdout.splitlines() if l.startswith("{")]
-    return [int(r["hash"]) for r in rows], sum(r["count"] for r in rows)
+    return [int(r["hash"]) for r in rows], (sum(r["count"] for r in rows), sum(r.get("nontrivial", 0) for r in rows))
 
 
 def coq_cksums(ctx, name, items, timeout=3000):
@@ -245,7 +251,12 @@ def run(ctx):
         par = 1
     if any(not r["closed"] for r in rows):
         items = []          # a lexer that does not close its channel would hang the checksum runs
-    badck, nck = cksum_compare(ctx, "cksum_c16", items, parallel=par) if items else ([], 0)
+    try:
+        badck, (nck, nck_nontrivial) = cksum_compare(ctx, "cksum_c16", items, parallel=par) if items else ([], (0, 0))
+    except Hang as h:
+        badck, nck, nck_nontrivial = [], 0, 0
+        violation({"kind": "structure", "what": "lexer.New did not deliver/close within 5 s during the exhaustive enumeration",
+                   "detail": str(h)})
     for pfx, d in badck[:3]:
         w = cksum_bisect(ctx, pfx, d)
         violation({"kind": "lexer-model-vs-real-lexer", "explain": "checksum over the exhaustive scope differs",
@@ -292,14 +303,21 @@ def run(ctx):
     ctx.add_obligations(props.result())
     pool.shutdown()
     ctx.cov["evaluations"] = len(rows) + nck
+    def in_scope(b):
+        for pfx, d in items:
+            if b.startswith(pfx) and len(b) - len(pfx) <= d and all(bytes([c]) in ALPHA for c in b[len(pfx):]):
+                return True
+        return False
     seen = set()
     for r in rows:
-        if len(r["toks"]) >= 2:
+        if len(r["toks"]) >= 2 and not in_scope(bytes.fromhex(r["in"])):
             seen.add(vcheck.case_hash([r["in"]]))
-    ctx.cov["distinct_nontrivial"] = len(seen)
+    ctx.cov["distinct_nontrivial"] = len(seen) + nck_nontrivial
     ctx.cov["rule"] = ("one evaluation = one input lexed by lexer.New under 4 channel capacities and by the Gallina model "
-                       "inside Coq, (kind,text) sequences compared; non-trivial = at least one token before the final "
-                       "EOF/Error; distinct by input bytes")
+                       "inside Coq, (kind,text) sequences compared (token by token for the generated cases, through a checksum for "
+                       "the exhaustively enumerated strings); non-trivial = at least one token before the final EOF/Error "
+                       "(counted by the harness for the enumerated strings); distinct by input bytes, enumerated scopes and "
+                       "generated cases de-duplicated against each other")
     ctx.cov["groups"] = {g: sum(1 for r in rows if r["g"] == g) for g in sorted(set(r["g"] for r in rows))}
     ctx.cov["variant_pairs_checked"] = npairs
     ctx.cov["printed_forms_checked"] = nprinted
